@@ -157,7 +157,7 @@ macro_rules! views_of {
         let upper: Vec<f64> = k.to_upper_triangle().iter().map(|&x| to_f64(x)).collect();
         let mut dots = Vec::new();
         for rhs in rhs_menu($n) {
-            let cols = rhs[0].len();
+            let cols = rhs.first().map_or(1, |r| r.len());
             let r: Array2<$F> = Array2::from_shape_fn(($n, cols), |(i, j)| <$F as Float>::cast(rhs[i][j]));
             let p = k.dot(&r.view());
             let (pr, pc) = p.dim();
@@ -448,6 +448,27 @@ fn run_typed<F: Float>(case: &Case, viols: &mut Vec<Violation>) -> Counters {
             viols.push(Violation::new(format!("{}.dot.incompatible_shape_no_panic", who_o), format!("dot with a {}x1 rhs on a kernel of size {} did not panic (documented panic)", n + 1, n), cj(at.clone())));
         }
 
+        // documented panic: column index out of bounds (owned kernel and view are separate impls)
+        bump(&mut cnt, "column_out_of_bounds_checked", 2);
+        for (form, res) in [("owned", guarded(|| kernel.column(n))), ("view", guarded(|| kernel.view().column(n)))] {
+            if let Ok(col) = res {
+                let col: Vec<f64> = col.iter().map(|&v| to_f64(v)).collect();
+                let sig = if kname == "sparse" && col.len() == n && col.iter().all(|&v| v == 0.0) {
+                    format!("sparse.{}.column.out_of_bounds_returns_zeros", form)
+                } else {
+                    format!("{}.{}.column.out_of_bounds_no_panic", kname, form)
+                };
+                let mut a = at.clone();
+                a.as_object_mut().unwrap().insert("op".into(), json!("column_out_of_bounds"));
+                a.as_object_mut().unwrap().insert("form".into(), json!(form));
+                viols.push(Violation::new(
+                    sig,
+                    format!("column({}) on a kernel of size {} returned {:?} instead of panicking (rustdoc of Kernel::column: \"Panics if i is out of bounds\"; the dense kernel does panic)", n, n, col),
+                    cj(a),
+                ));
+            }
+        }
+
         // ---- hierarchical clustering on this kernel ----
         let big = n > 8;
         if case.cluster && !bad_value && (!big || kname == "dense" || (nn_name == "kdtree" && [1usize, 2, 5].contains(&kk))) {
@@ -460,7 +481,7 @@ fn run_typed<F: Float>(case: &Case, viols: &mut Vec<Violation>) -> Counters {
         }
     }
     // ---- documented panics: neighbour counts outside 0<k<n ----
-    if n >= 1 {
+    {
         for (name, nn) in KINDS.iter() {
             for k in [0usize, n, n + 1] {
                 bump(&mut cnt, "evals", 1);
@@ -737,29 +758,44 @@ fn replay_value(v: &Value) -> Vec<Violation> {
     let mut out = Vec::new();
     run_case(&c, &mut out);
     if let Some(at) = v.get("at") {
-        out.retain(|x| x.case.get("at") == Some(at));
+        out.retain(|x| x.case.get("at").map_or(false, |a| at_matches(a, at)));
     }
     out
+}
+
+/// Same location inside a case; numbers are compared with a relative 1e-9 slack so that a
+/// replay file written by another JSON printer still selects the recorded operation.
+fn at_matches(a: &Value, b: &Value) -> bool {
+    match (a, b) {
+        (Value::Object(x), Value::Object(y)) => x.len() == y.len() && x.iter().all(|(k, v)| y.get(k).map_or(false, |w| at_matches(v, w))),
+        (Value::Number(x), Value::Number(y)) => match (x.as_f64(), y.as_f64()) {
+            (Some(p), Some(q)) => close(p, q, 1e-9, 0.0),
+            _ => x == y,
+        },
+        _ => a == b,
+    }
 }
 
 fn main() {
     let ctx = Ctx::new("C06", Level::Exploration);
     ctx.maybe_replay(&replay_value);
     ctx.set_rule(
-        "cases = (point set, float type, kernel method); point sets: every subset of 2..5 (quick) / 2..6 (thorough) points of the 3x3 lattice, \
-         the generic-position image of each (constant jitter table), every multiset of 1..5 points of {0..4} on a line (duplicates up to 3x), \
-         every subset of 2..5 (quick) / 2..6 (thorough) of a pool of 7 three-feature points; kernel methods Linear, Gaussian(0.5), Gaussian(2), Polynomial(c in {0,1}, d in {1,2,3}); f64 and f32. \
-         Per case: Dense and Sparse(k) for every 0<k<n with LinearSearch / KdTree / BallTree, owned kernel and view: every stored cell vs the reference kernel function, \
-         pattern vs the brute-force k-nearest ranking, size/sum/column/diagonal/to_upper_triangle/dot(3 right-hand sides) vs the stored matrix, k in {0,n,n+1} must panic. \
-         Per Gaussian f64 kernel with a distinct matrix: 7 linkage methods x NumClusters(1..n+1) x Distance(t) with t exactly at every distinct input / merge dissimilarity, at every midpoint, below the minimum, 0 and above the maximum. \
+        "cases = (point set, float type, kernel method). Point sets: every subset of 2..5 (quick) / 2..6 (thorough) points of the 3x3 lattice, \
+         the generic-position image of each (constant jitter table), the empty record matrix, every multiset of 1..5 points of {0..4} on a line (duplicates up to 3x), \
+         every subset of 2..5 / 2..6 of a pool of 7 three-feature points, and large sets above the neighbour-index leaf size of 16 (5x5 grid, its generic image, 20 points on a line in duplicate pairs, \
+         generic 3x3x3 cube; thorough also 6x6, generic 6x6 and 7x7 grids). Kernel methods Linear, Gaussian(0.5), Gaussian(2) (thorough also 0.125, 8), Polynomial(c in {0,1}, d in {1,2,3}); f64 and f32. \
+         Per case: Dense and Sparse(k) for EVERY 0<k<n with LinearSearch / KdTree / BallTree, owned kernel and view: every stored cell vs the reference kernel function, \
+         pattern vs the brute-force k-nearest ranking, size/sum/column/diagonal/to_upper_triangle/dot(3 right-hand sides) vs the stored matrix, documented panics (k in {0,n,n+1}, dot shape, column index). \
+         Clustering sweep on every kernel of a case with a distinct matrix (quick: f64 Gaussian, Linear, Polynomial(1,2); thorough: all methods, f64 and f32; large sets: generic Gaussian kernels, dense and k in {1,2,5}): \
+         7 linkage methods x NumClusters(1..n+1) x Distance(t) with t exactly at every distinct input / merge dissimilarity, at every midpoint, half the minimum, 0 and above the maximum (non-negative t only). \
          evaluations = kernels built + clustering runs; non-trivial = kernels on n>=2 records (sparse: exact pattern with at least one absent pair), NumClusters with 1<c<n, thresholds that give 1 < #clusters < n; \
          distinct by construction of the enumerators.",
     );
     ctx.assume("kernel functions as pinned by the crate's tests: Gaussian(eps) = exp(-|x-y|^2/eps), Polynomial(c,d) = (<x,y>+c)^d, Linear = <x,y>; reference in f64 from the coordinates / parameters as rounded to the subject's float type");
     ctx.assume("stored kernel values vs reference: relative 1e-12 (f64) / 3e-5 (f32); sums and products vs the stored matrix: same tolerances scaled by n x magnitude; column / diagonal / upper triangle are copies and compared exactly; Gaussian diagonal == 1 exactly; PSD: smallest Jacobi eigenvalue >= -1e-10 (f64) / -1e-4 (f32), dense Gaussian kernels only");
     ctx.assume("sparse pattern: pair (i,j) must be stored when j is among i's k nearest under every tie-break and may be stored when under some tie-break (squared-distance margin 1e-12 (f64) / 1e-5 (f32) x largest squared distance); where the two bounds coincide (generic position) the pattern is compared exactly, for each of the three indices; otherwise the case is also counted as indeterminate (tie-robust bounds only)");
-    ctx.assume("clustering oracle input = the kernel's own stored matrix (verified against the kernel function in the same case), dissimilarity d = -ln(max(K,1e-6)) computed with the same f64 operations; trusted base: the Lance-Williams formulas of linkref.rs with the SciPy/fastcluster convention (Ward/Centroid/Median on squared input, height = sqrt)");
-    ctx.assume("ties: the reference follows every pair within relative 1e-9 of the minimum, the observed partition must be one of the resulting partitions; merge heights produced by arithmetic that fall within relative 1e-9 of a threshold make the run indeterminate; heights that are input entries (Single, Complete, any merge of two singletons) are compared exactly, also at the threshold itself (merge iff d < t, as the statement says)");
+    ctx.assume("clustering oracle input = the kernel's own stored matrix (verified against the kernel function in the same case), dissimilarity d = -ln(max(K,1e-6)) computed with the same operations in the kernel's float type (kernels with K>1 give negative d, which the reference handles like any number); trusted base: the Lance-Williams formulas of linkref.rs with the SciPy/fastcluster convention (Ward/Centroid/Median on squared input, height = sqrt)");
+    ctx.assume("ties: the reference follows every pair within relative 1e-9 (f32 kernels: 1e-4) of the minimum, the observed partition must be one of the resulting partitions; merge heights produced by arithmetic that fall within that margin of a threshold (also merges that would follow a merge stopped exactly at the threshold) make the run indeterminate; exploration budget per run 400000 nodes (small sets, never reached: see reference_overflow_on_small_sets) / 150 nodes (large sets, overflow = indeterminate); heights that are input entries (Single, Complete, any merge of two singletons) are compared exactly, also at the threshold itself (merge iff d < t, as the statement says)");
     ctx.assume("Centroid / Median: threshold runs whose reference dendrogram has an inversion or a negative / NaN Lance-Williams value are skipped as indeterminate (statement ambiguous there); count checks and NumClusters comparisons still apply unless the reference degenerates; NumClusters(0) is outside the domain (C04) and not run");
 
     // ---------------- enumerate ----------------
@@ -772,6 +808,7 @@ fn main() {
         let g: Vec<Vec<f64>> = ss.iter().map(|&i| lat[i].iter().enumerate().map(|(j, &v)| v as f64 + en::jitter(i, j)).collect()).collect();
         sets.push(("lattice3x3_generic".into(), g, 2));
     }
+    sets.push(("empty".into(), vec![], 2));
     for ms in en::multisets_upto(5, 1, 5, 3) {
         sets.push(("line_multiset".into(), ms.iter().map(|&i| vec![i as f64]).collect(), 1));
     }
